@@ -16,8 +16,7 @@ static const double EPS15 = EPS * std::sqrt(EPS);
 // at t = +-1 (d log P_n/dt = n(n+1)/2): the recurrences are driven by t = z/r, every rounding of t * (..) acts like a
 // perturbation of t.
 inline double KTOL_of(int nmax) { return 64 + double(nmax) * nmax / 16; }
-static const double KDEV = getenv("C19_DEV_K") ? atof(getenv("C19_DEV_K")) : 1;   // DEV ONLY
-inline double Kof(const sph::Sum& s) { return KDEV * KTOL_of(s.nmax); }
+inline double Kof(const sph::Sum& s) { return KTOL_of(s.nmax); }
 // tolerances of a value / of a gradient component; extra = additional absolute allowance (e.g. position rounding)
 inline Q tol_v(const sph::Sum& s, Q extra = 0) { return Q(Kof(s) * EPS) * s.sv + Q(EPS15) * s.ssup + extra; }
 inline Q tol_g(const sph::Sum& s, Q extra = 0) { return Q(Kof(s) * EPS) * s.sg + Q(EPS15) * s.ssupg + extra; }
